@@ -1,6 +1,11 @@
 HOOK_COMMITS = [
     "7493c96 verif hook: skrifa hint engine in-crate harness module",
-    "(see `git -C /repo log --grep 'verif hook'`) read-fonts BitPage; skrifa decycler + glyf memory; write-fonts write/cmap/font_builder",
+    "e178f84 verif hook: read-fonts BitPage in-crate harness module",
+    "66b5d91 verif hooks: skrifa decycler and glyf memory in-crate harness modules",
+    "76545d8 verif hooks: read-fonts BitSet in-crate harness module; BitPage harness module visible to its siblings (also carries the write-fonts write/cmap/font_builder hooks)",
+    "228641b verif hooks: skrifa outline path and write-fonts glyf simple in-crate harness modules",
+    "0eedda0 verif hooks: write-fonts ivs_builder and loca in-crate harness modules",
+    "db8b4be verif hook: read-fonts variations in-crate harness module",
 ]
 ENGINES = [
     {"name": "mir2smt", "path": "lib/mir2smt_core.py", "serves_properties": ["C15", "C20"],
@@ -8,7 +13,8 @@ ENGINES = [
     {"name": "kani", "path": "harness/", "serves_properties": ["C01", "C02", "C06", "C08", "C09", "C10", "C11", "C12", "C13", "C14", "C15", "C16", "C20"],
      "kind_free_text": "Kani 0.68 / CBMC 6.11 / cadical bounded model checking of the compiled /repo crates (harness crates with path dependencies on /repo, rebuilt from the working tree on every run)"},
 ]
-NOTES = ("Every check is `./vf check <ID>`: regenerates harness sources / dispatch tables from /repo, compiles the harness crates "
+NOTES = ("Every hook is one cfg-guarded `#[path = \"/verif/harness/incrate/<file>.rs\"] mod verif_harness;` line placed before the crate's own test module; "
+         "with the guard off the declaration is stripped before the path is resolved. fix: commits in /repo: 9c7c878, 70acc1b, e567e1f, faed5d2, 156cbd4, b03402d (see known_findings.jsonl). ""Every check is `./vf check <ID>`: regenerates harness sources / dispatch tables from /repo, compiles the harness crates "
          "against /repo's working tree with cargo kani, poses one solver query per harness, replays any counterexample natively "
          "(dev + release) before printing VIOLATION, and writes evidence/<ID>.json. exit 2 = machinery problem (never a verdict).")
 CHECKS = {
